@@ -10,7 +10,9 @@ func init() {
 		Assume:  []string{"injectivity of index→address (toPrefix arithmetic: C20; toIP: C05.LINMAP)", "bitset's own correctness"},
 		Run: func(c *Ctx) {
 			ruleAlloc(c, "C04.", map[string]bool{"LOCK": true, "TESTSET": true, "SAMEINDEX": true, "SIBLINGS": true})
-			ruleSizeCap(c, "C04.") // the block handed out must not extend beyond the one bit reserved for it
+			ruleSizeCap(c, "C04.")  // the block handed out must not extend beyond the one bit reserved for it
+			ruleConvPair(c, "C04.") // disjointness: two blocks never share an index (the IPv4 sibling of this rule is LINMAP)
+			ruleGeomAlias(c, "C04.")
 			c.R.Floor("C04.ALLOC.LOCK", 14)
 			c.R.Floor("C04.ALLOC.TESTSET", 3)
 			c.R.Floor("C04.ALLOC.ROLLBACK", 1)
@@ -27,6 +29,7 @@ func init() {
 			ruleAlloc(c, "C06.", map[string]bool{"FREE": true, "LOCK": true})
 			ruleArith(c, "C06.") // the index of the block: limb arithmetic of Offset must at least be well-formed
 			ruleLinMap(c, "C06.")
+			ruleGeomAlias(c, "C06.")
 			c.R.Floor("C06.FREE.TESTCLEAR", 2)
 			c.R.Floor("C06.FREE.CONTAIN", 4)
 			c.R.Floor("C06.FREE.ERR-NOEFFECT", 2)
@@ -39,9 +42,10 @@ func init() {
 		Assume:  []string{"that the hint's index is the index of the hinted block (arithmetic, C05/C20)"},
 		Run: func(c *Ctx) {
 			ruleAlloc(c, "C07.", map[string]bool{"HINT": true, "SAMEINDEX": true}) // the block returned is the conversion of the hinted index
-			ruleLinMap(c, "C07.") // a hint at either end of the range must convert to its own index
+			ruleLinMap(c, "C07.")                                                  // a hint at either end of the range must convert to its own index
 			ruleHintCallers(c, "C07.HINT.CALLERS")
 			ruleArith(c, "C07.") // the hinted index converts back to the hinted block only if AddPrefixes neither wraps nor reports a spurious overflow
+			ruleGeomAlias(c, "C07.")
 			c.R.Floor("C07.HINT.FIRST", 4)
 			c.R.Floor("C07.HINT.CALLERS", 2)
 		},
@@ -58,6 +62,8 @@ func init() {
 			ruleGuardedBy(c, "C16.")
 			ruleGlobalRO(c, "C16.GLOBAL-RO")
 			ruleBufRelease(c, "C16.BUF.RELEASE")
+			ruleFreshPublish(c, "C16.PUBLISH-FRESH")
+			rulePoolRetain(c, "C16.POOL.NO-RETAIN")
 			for _, ai := range findAllocImpls(c) {
 				ruleAllocLock(c, "C16.", ai)
 			}
@@ -101,7 +107,9 @@ func init() {
 			ruleRangeRestart(c, "C02.RANGE.RESTART")
 			ruleDBLoad(c, "C02.") // "with restarts in between": the restored map must be keyed like the handler's lookups
 			ruleGuardedBy(c, "C02.", "range.")
-			ruleLinMap(c, "C02.") // "in range": the IPv4 allocator's index↔address maps and bitmap size are exact
+			ruleLinMap(c, "C02.")                                                // "in range": the IPv4 allocator's index↔address maps and bitmap size are exact
+			ruleAlloc(c, "C02.", map[string]bool{"TESTSET": true, "FULL": true}) // "never bound to two clients": the allocator hands out only clear bits and fails exactly when none is left
+			ruleDBSchema(c, "C02.")                                              // "restarts in between": what was saved for a client is what is restored for it
 			c.R.Floor("C02.RANGE.LOOKUP-FIRST", 1)
 			c.R.Floor("C02.RANGE.INSERT", 1)
 			c.R.Floor("C02.RANGE.EXHAUST", 1)
@@ -120,7 +128,8 @@ func init() {
 			ruleDBSchema(c, "C03.")
 			ruleRangeHandler(c, "C03.", map[string]bool{"C03": true})
 			ruleDBLoad(c, "C03.")
-			ruleRangeRestart(c, "C03.RANGE.RESTART") // "none lost": every loaded binding is kept and re-marked, or start-up aborts
+			ruleRangeRestart(c, "C03.RANGE.RESTART")                             // "none lost": every loaded binding is kept and re-marked, or start-up aborts
+			ruleAlloc(c, "C03.", map[string]bool{"TESTSET": true, "FULL": true}) // an address handed out twice puts one ip in two rows: such a database is refused at restart
 			c.R.Floor("C03.DB.SCHEMA-AGREE", 5)
 			c.R.Floor("C03.DB.CODEC", 4)
 			c.R.Floor("C03.DB.PERSIST-BEFORE-REPLY", 1)
@@ -141,6 +150,8 @@ func init() {
 			rulePrefix(c, "C08.", map[string]bool{"C08": true})
 			ruleAlloc(c, "C08.", map[string]bool{"TESTSET": true, "SAMEINDEX": true, "LOCK": true}) // disjointness across clients rests on the allocator
 			ruleGuardedBy(c, "C08.", "prefix.")
+			ruleGeomAlias(c, "C08.") // what a client was told it holds stays what is recorded: no answer shares storage with a later one
+			ruleConvPair(c, "C08.")  // disjoint blocks: index and prefix conversions are the library's inverse pair
 			for _, r := range []string{"PD.PROVENANCE", "PD.OWN-KEY", "PD.ONE-PER-IAPD", "PD.NOPREFIX", "PD.LIFETIME", "PD.FRESH", "PD.LOCK"} {
 				c.R.Floor("C08."+r, 1)
 			}
@@ -196,7 +207,8 @@ func init() {
 			ruleLinMap(c, "C05.")
 			ruleSizeCap(c, "C05.")
 			ruleAlloc(c, "C05.", map[string]bool{"FULL": true, "SAMEINDEX": true, "TESTSET": true, "LOCK": true}) // "exactly N": no block is handed out twice, none is lost
-			ruleArith(c, "C05.") // every index of the pool must convert to an address (no spurious overflow)
+			ruleArith(c, "C05.")                                                                                  // every index of the pool must convert to an address (no spurious overflow)
+			ruleGeomAlias(c, "C05.")
 			c.R.Floor("C05.LINMAP", 3)
 			c.R.Floor("C05.SIZE", 1)
 			c.R.Floor("C05.CAP", 1)
@@ -214,7 +226,15 @@ func init() {
 			fn1 := c.P.Func("plugins/allocators", "", "Offset")
 			fn2 := c.P.Func("plugins/allocators", "", "AddPrefixes")
 			if fn1 != nil && fn2 != nil {
-				runSafety(c, "C20.", []*ssa.Function{fn1, fn2}, nil, "BOUNDS")
+				// the two functions and whatever same-package helpers their body was split into
+				_, reach := ReachFirstParty(c.P, []*ssa.Function{fn1, fn2})
+				var fns []*ssa.Function
+				for _, f := range reach {
+					if f.Pkg == fn1.Pkg {
+						fns = append(fns, f)
+					}
+				}
+				runSafety(c, "C20.", fns, nil, "BOUNDS")
 			}
 			c.R.Floor("C20.ARITH.GUARDED", 9)
 			c.R.Floor("C20.ARITH.ERR-ZERO", 2)
